@@ -124,7 +124,7 @@ def c06_add_loop_guard(sig, case):
         guard = guard or bool(st["args"][3]["v"])
     except Exception:
         pass
-    return guard and sig.get("kind", "").split(":")[0] in ("wrong_stmt", "expr_raises", "wrong_expr", "raises", "gap_raises", "block_raises", "stmt_to_nonstmt")
+    return guard and sig.get("kind", "").split(":")[0] in ("wrong_stmt", "expr_raises", "wrong_expr", "raises", "gap_raises", "block_raises", "stmt_to_nonstmt", "block_lost_member", "gap_wrong_anchor")
 
 
 # ---------------------------------------------------------------- C15
